@@ -349,10 +349,44 @@ def set_of_iterable(eng, st, it):
     return set_of_gen(eng, st, VGen(seq, i, None, seq.get(st, i)))
 
 
+def _dictcomp_flat(eng, node, gen, s, fid, seq):
+    """dict comprehension over a flattened sequence of tuples (itertools.chain(*pairs)): one characterisation per component,
+    avoiding div/mod indexing.  dom[key] <=> some component of some tuple produces key; val[key] = the value produced by one of
+    the producing elements (last-wins is not modelled: sound as a hypothesis, exact when equal keys produce equal values)."""
+    inner_n, k, comp = seq.flat
+    parts = []
+    for c in range(k):
+        sc = VSeq(inner_n, (lambda c: lambda st2, j: comp(st2, j, c))(c), tag="chain-comp")
+        i, cond, vals, extra = _element(eng, [node.key, node.value], gen, s, fid, sc)
+        s = _with_extras(s, sc, i, cond, extra)
+        parts.append((i, cond, vals))
+    kkind, vkind = B.value_kind(parts[0][2][0]), B.value_kind(parts[0][2][1])
+    if kkind is None or vkind is None:
+        raise Unsupported("dict comprehension with non-scalar entries")
+    ks = sort_of(kkind)
+    dom = fresh("dc_dom", z3.ArraySort(ks, z3.BoolSort()))
+    val = fresh("dc_val", z3.ArraySort(ks, sort_of(vkind)))
+    j, key = z3.Const(fresh_name("j"), I), z3.Const(fresh_name("k"), ks)
+    axs, alts = [], []
+    for c, (i, cond, vals) in enumerate(parts):
+        kv, vv = vals
+        cnd = (lambda cond, i: lambda ix: z3.substitute(cond, (i, ix)) if cond is not None else z3.BoolVal(True))(cond, i)
+        kf = (lambda kv, i: lambda ix: unwrap(subst_value(kv, i, ix), kkind))(kv, i)
+        vf = (lambda vv, i: lambda ix: unwrap(subst_value(vv, i, ix), vkind))(vv, i)
+        axs.append(FA([j], z3.Implies(z3.And(0 <= j, j < inner_n, cnd(j)), z3.Select(dom, kf(j))), patterns=[kf(j)]))
+        sel = fresh(f"dc_sel{c}", z3.ArraySort(ks, I))
+        alts.append(z3.And(0 <= sel[key], sel[key] < inner_n, cnd(sel[key]), kf(sel[key]) == key, z3.Select(val, key) == vf(sel[key])))
+    axs.append(FA([key], z3.Implies(z3.Select(dom, key), z3.Or(*alts)), patterns=[z3.Select(dom, key)]))
+    s2, d = alloc_dict(s.assume(*axs), kkind, vkind, dom=dom, val=val)
+    return [("ok", s2, d)]
+
+
 def dictcomp(eng, node, st, fid):
     gen = _single_gen(node)
 
     def mk(s, seq):
+        if getattr(seq, "flat", None) is not None:
+            return _dictcomp_flat(eng, node, gen, s, fid, seq)
         i, cond, vals, extra = _element(eng, [node.key, node.value], gen, s, fid, seq)
         s = _with_extras(s, seq, i, cond, extra)
         kv, vv = vals
